@@ -4,9 +4,12 @@ VARIABLE l
 Trace == ndJsonDeserialize(IOEnv.TRACEFILE)
 Ev == Trace[l]
 TLoad == Ev.op = "load" /\ Ev.outcome \in LoadAllowed(Ev.shape)
+\* the same content as the personal notebook beside a good main file: an absent notebook is fine, anything that cannot be
+\* decoded is still reported as a parse error (not passed over in silence)
+TLoadP == Ev.op = "loadp" /\ Ev.outcome \in (IF Ev.shape = "missing" THEN {"loads"} ELSE LoadAllowed(Ev.shape))
 TCall == Ev.op = "call" /\ Ev.outcome \in CallAllowed
 TraceInit == l = 1
-TraceNext == l <= Len(Trace) /\ l' = l + 1 /\ (TLoad \/ TCall)
+TraceNext == l <= Len(Trace) /\ l' = l + 1 /\ (TLoad \/ TLoadP \/ TCall)
 TraceSpec == TraceInit /\ [][TraceNext]_l
 TraceAccepted ==
     LET d == TLCGet("stats").diameter IN
